@@ -266,6 +266,40 @@ def run(ctx: core.Ctx):
         for u in res["unwritten"]:
             ctx.fail(u["kernel"], u["input"], dict(first=u["first"], second=u["second"]), "every output element is written (repeated calls on fresh buffers agree)")
     ctx.samples.append(dict(level="F", groups=groups, env="NUMBA_BOUNDSCHECK=1"))
+
+    # ---- whole-cube kernels: repeated calls on the same in-contract cube agree with each other and with one call per image row
+    # (a scratch array shared between rows / iterations, or an element left unwritten, shows as a difference)
+    from hdc.algo.ops.autocorr import autocorr_tyx
+    from hdc.algo.ops.stats import mann_kendall_trend_yxt
+    from hdc.algo.ops.ws2doptvplc import ws2doptvplc_tyx
+    nt, ny, nx = 24, 64, 24
+    tt = np.arange(nt)[:, None, None]
+    cube = (3000 + 2000 * np.sin(2 * np.pi * (tt / 12.0 + np.arange(ny)[None, :, None] / 7.0)) + np.array(
+        [[[rng.randint(-600, 600) for _ in range(nx)] for _ in range(ny)] for _ in range(nt)])).astype("int16")
+    for _ in range(nt * ny * nx // 10):
+        cube[rng.randrange(nt), rng.randrange(ny), rng.randrange(nx)] = -3000
+    yxt = np.ascontiguousarray(np.moveaxis(cube, 0, -1)).astype("float64")
+    whole = {
+        "ws2doptvplc_tyx": (lambda c: ws2doptvplc_tyx(c, 0.9, -3000), cube, 1),
+        "autocorr_tyx": (lambda c: (autocorr_tyx(c, -3000),), cube, 1),
+        "mann_kendall_trend_yxt": (lambda c: (mann_kendall_trend_yxt(c),), yxt, 0),
+    }
+    for name, (fn, arr, rowaxis) in whole.items():
+        def rows(a):
+            return [np.take(a, [r], axis=rowaxis) for r in range(ny)]
+        ref = [fn(np.ascontiguousarray(r)) for r in rows(arr)]
+        ref = [np.concatenate([np.asarray(x[k]) for x in ref], axis=(rowaxis if np.asarray(ref[0][k]).ndim == arr.ndim else 0)) for k in range(len(ref[0]))]
+        for rep in range(ctx.budget(4, 16)):
+            got = fn(arr)
+            ctx.case(("whole-cube", name, rep), sample=dict(kernel=name, shape=list(arr.shape), call=rep))
+            ctx.count("whole-cube repeated calls")
+            bad = [k for k in range(len(ref)) if not np.array_equal(np.asarray(got[k]), ref[k], equal_nan=True)]
+            if bad:
+                k = bad[0]
+                d = np.argwhere(~((np.asarray(got[k]) == ref[k]) | (np.isnan(np.asarray(got[k], dtype="float64")) & np.isnan(ref[k].astype("float64")))))
+                ctx.fail(name, dict(shape=list(arr.shape), call=rep, output=k, cells_differing=int(len(d)), first=[int(v) for v in d[0]]),
+                         "differs from the row-by-row result", "repeated calls deterministic; a pixel's result does not depend on the other rows in the call")
+                break
     ctx.trusted += ["native model driver (Hdc/Model/Bounds.lean traces)", "harness index-logging ndarray", "Numba's NUMBA_BOUNDSCHECK instrumentation"]
 
 
